@@ -441,9 +441,9 @@ def ray_builders(model, inst, X):
                 lambda I, e=e: inst(I, 'NuclearNorm', mat(), 1, e), pt,
                 'ray')
     # ---- derived functionals (calculus rules on concrete functionals) ----
-    def pair(I, f, factory, sigmas=None, sigma_elem=None):
+    def pair(I, f, factory, sigmas=None, sigma_elem=None, sigma_num=None):
         return Rec('proxpair', f=f, proximal=factory, sigmas=sigmas,
-                   sigma_elem=sigma_elem,
+                   sigma_elem=sigma_elem, sigma_num=sigma_num,
                    domain=I.getattr_value(f, 'domain'))
 
     def fn(I, name):
@@ -519,6 +519,28 @@ def ray_builders(model, inst, X):
                 fn(I, 'proximal_l2'), [sp()], {'lam': lam,
                                                'g': point(sp(), g)})),
             [sig + sig / 10, -sig, 2 * sig, Rat.const(0)], 'ray')
+        # the conjugate factories with a data term: the proximal of the
+        # conjugate of lam * ||. - g|| projects y - sigma * g (not y - g);
+        # numeric step sigma = 2 so that every region test compares numbers
+        g2 = [Rat.const(1), Rat.const(-1), Rat.const(2), Rat.const(0)]
+        sig2 = Rat.const(2)
+
+        def cdist(I, cls, sp=sp, g2=g2):
+            return I.getattr_value(I.binop(ast.Mult, lam, I.call(
+                I.getattr_value(inst(I, cls, sp()), 'translated'),
+                [point(sp(), g2)], {})), 'convex_conj')
+        for nm_, z in (('far', [Rat.const(3), Rat.const(4), Rat.const(0),
+                               Rat.const(0)]),
+                       ('near', [Rat.const(3) / 10, Rat.const(2) / 5,
+                                 Rat.const(0), Rat.const(0)])):
+            B['proximal_convex_conj_l2(lam, g)[%s, %s, sigma = 2]' % (
+                t, nm_)] = (
+                lambda I, sp=sp, cdist=cdist, g2=g2: pair(
+                    I, cdist(I, 'L2Norm'), I.call(
+                        fn(I, 'proximal_convex_conj_l2'), [sp()],
+                        {'lam': lam, 'g': point(sp(), g2)}),
+                    sigma_num=Rat.const(2)),
+                [a + Rat.const(2) * b for a, b in zip(z, g2)], 'ray')
         B['proximal_l2_squared(lam, g)[%s]' % t] = (
             lambda I, sp=sp, dist=dist: pair(
                 I, dist(I, 'L2NormSquared'), I.call(
@@ -802,6 +824,9 @@ def run_directional(model, build, entries, sigma=None, wit=None,
             # one step per point: sigma is an element of the space
             sigs = list(f.attrs['sigma_elem'])
             sigarg = mk_point(dom, sigs)
+        elif f.attrs.get('sigma_num') is not None:
+            # a numeric step: every region test is a comparison of numbers
+            sig = sigarg = f.attrs['sigma_num']
         f = f.attrs['f']
     prox = I.call(factory, [sigarg], {})
     p = I.call(prox, [mk_point(dom, entries)], {})
